@@ -124,7 +124,9 @@ def check_file(ctx, model, nptdms, data, stats, exhaustive):
             f2, st2 = cl.open_real(data, nptdms)
             ch2 = [c for c in cl.channels_of(f2) if c.path == ch.path][0]
             st2.take_log()
-            r1 = cl.call(lambda: ch2[i])
+            # the same position written as a negative index every other time
+            i_arg = i - n if (i + len(p)) % 2 else i
+            r1 = cl.call(lambda: ch2[i_arg])
             fetched = cl.merge_ranges(st2.take_log())
             stats["indices"] += 1
             if r1[0] != "ok":
@@ -137,13 +139,14 @@ def check_file(ctx, model, nptdms, data, stats, exhaustive):
                                      dict(kind="index", file=data.hex(), path=p.hex(), index=i, fetched=fetched, allowed=al)))
             if tb:
                 j = ctx.rnd.randrange(tb[0][0], tb[0][1])
+                j_arg = j - n if ctx.rnd.random() < 0.5 else j
                 st2.take_log()
-                cl.call(lambda: ch2[j])
+                cl.call(lambda: ch2[j_arg])
                 again = cl.merge_ranges(st2.take_log())
                 stats["cached"] += 1
                 if again:
-                    vio.append(Violation("channel[%d] after channel[%d] (same chunk) fetched %s instead of using the cached chunk" % (j, i, again),
-                                         dict(kind="cache", file=data.hex(), path=p.hex(), index=i, second=j, fetched=again)))
+                    vio.append(Violation("channel[%d] after channel[%d] (same chunk) fetched %s instead of using the cached chunk" % (j_arg, i_arg, again),
+                                         dict(kind="cache", file=data.hex(), path=p.hex(), index=i_arg, second=j_arg, fetched=again)))
     return dis, vio
 
 
@@ -184,7 +187,7 @@ def run(ctx):
     return dict(violations=violations, disagreements=disagreements,
                 coverage=dict(evaluations=stats["windows"] + stats["indices"] + stats["cached"], distinct_nontrivial=stats["nonempty"],
                               rule=RULE_FILES + "; per channel windows (off,len) (exhaustive for small channels on every third file), index reads on fresh files "
-                                   "followed by a second index into the same chunk; every second file additionally cut at up to 3 offsets inside its last segment's raw data with all windows; non-trivial = requests that fetched raw data and had a non-empty allowed set",
+                                   "followed by a second index into the same chunk (positions written as negative indices half of the time); every second file additionally cut at up to 3 offsets inside its last segment's raw data with all windows; non-trivial = requests that fetched raw data and had a non-empty allowed set",
                               samples=samples, files=fs.drawn, requests=stats, feature_counts=dict(sorted(fs.feats.items()))))
 
 
